@@ -301,6 +301,11 @@ func (h H) dispatcherHandsOver(rule string) {
 	fi := h.P.Info(fn)
 	n := 0
 	seen := map[string]bool{}
+	// the first result, if it is named (the deferred recover assigns it)
+	resName := "\x00"
+	if rs := fn.Signature.Results(); rs.Len() == 2 && rs.At(0).Name() != "" {
+		resName = rs.At(0).Name()
+	}
 	check := func(v ssa.Value, in ssa.Instruction) {
 		n++
 		name, ok := fromHandler(v)
@@ -313,13 +318,13 @@ func (h H) dispatcherHandsOver(rule string) {
 	core.Instrs(fn, func(in ssa.Instruction) {
 		switch x := in.(type) {
 		case *ssa.Store:
-			if al, ok := x.Addr.(*ssa.Alloc); ok && al.Comment == "result" {
+			if al, ok := x.Addr.(*ssa.Alloc); ok && al.Comment == resName {
 				check(x.Val, in)
 			}
 		case *ssa.Return:
 			if len(x.Results) == 2 {
 				if u, ok := x.Results[0].(*ssa.UnOp); ok {
-					if al, ok := u.X.(*ssa.Alloc); ok && al.Comment == "result" {
+					if al, ok := u.X.(*ssa.Alloc); ok && al.Comment == resName {
 						return
 					}
 				}
